@@ -18,17 +18,56 @@ RULE = ("feature sets of 12-90 lines over 2-6 seqids (mixed case, non-ASCII), 2-
         "strand x order_by (none; each of the 12 sortable names singly - always run both as str and as 1-tuple; random "
         "pairs and triples as tuple or list) x reverse x (25%) limit= tuple/string with completely_within on/off; per "
         "database one 'counts' case (count_features_of_type for every candidate type, total, featuretypes(), seqids(), "
-        "full iteration order).  non-trivial = expected result has >= 3 rows and (if ordered) >= 2 distinct sort keys; "
-        "distinct = distinct (feature set, query) pairs")
+        "full iteration order).  Every third feature set is 'odd': featuretypes / seqids / sources containing a comma, a "
+        "blank, '%', '_', glob wildcards or quotes next to the plain values they could be confused with ('exon,CDS' next "
+        "to 'exon' and 'CDS'), queried as a plain string and inside collections, plus never-stored probes ('exo%', "
+        "'e_on', 'CDS,exon').  Every 40th query hands over a featuretype list/tuple/set of 1000-1200 entries (matching "
+        "types at the first, last, 999th-1001st and other places, half of the lists with ~10% repeated entries), nearly "
+        "always with order_by.  Per feature set 3-5 'history' cases: a fresh database is put through 2..n/3 deletes (by "
+        "id / by Feature) and in-place rewrites through add_relation(parent_func=, child_func=) adding attributes, "
+        "optionally primed before and reopened after, then full iteration, order_by='file_order' (str/tuple/list/"
+        "reverse), featuretypes(), seqids(), counts per type and 5 random queries are judged against the surviving "
+        "features.  non-trivial = expected result has >= 3 rows and (if ordered) >= 2 distinct sort keys; "
+        "distinct = distinct (feature set, query) pairs / distinct (feature set, history)")
 REQUIRED = ["queries executed", "calls of the real query methods", "result rows compared", "sortedness checks (ascending)",
             "sortedness checks (descending, single column)", "str-vs-tuple order_by comparisons",
             "multi-column reverse: multiset only", "full iterations compared with input order",
             "count_features_of_type comparisons", "featuretypes() comparisons", "seqids() comparisons",
-            "contract evaluations: helpers.make_query", "sql: ORDER BY seen", "sql: SELECT without ORDER BY seen"]
+            "contract evaluations: helpers.make_query", "sql: ORDER BY seen", "sql: SELECT without ORDER BY seen",
+            # long featuretype collections
+            "long featuretype collections (1000-1200 entries) queried", "long featuretype collections with duplicate entries",
+            "long featuretype collections with order_by", "long featuretype collections with order_by and reverse",
+            "sortedness checks on results of long featuretype collections",
+            # odd text in featuretype / seqid / source
+            "featuretype argument containing a comma: as a plain string", "featuretype argument containing a comma: inside a collection",
+            "featuretype argument containing a comma: features stored under exactly that type",
+            "featuretype argument containing a blank: as a plain string", "featuretype argument containing a blank: inside a collection",
+            "featuretype argument containing a percent sign: as a plain string",
+            "featuretype argument containing a percent sign: inside a collection",
+            "featuretype argument containing an underscore: as a plain string",
+            "featuretype argument containing an underscore: inside a collection",
+            "featuretype argument containing a wildcard: as a plain string", "featuretype argument containing a wildcard: inside a collection",
+            "count_features_of_type vs iteration for a type containing a comma",
+            "count_features_of_type vs iteration for a type containing a percent sign",
+            # histories
+            "histories applied before querying", "history: features deleted",
+            "history: add_relation calls with parent_func/child_func", "history: rewritten attributes seen in the stored row",
+            "full iterations after a history compared with the original relative input order",
+            "order_by='file_order' after a history compared with the original relative input order",
+            "distinct lists compared after a history", "queries on a database with a history",
+            "history: database reopened before the queries"]
 REQUIRED_CLASSES = ["order_by=" + c for c in M.ORDERABLE] + ["order_by: none", "order_by: 2 columns", "order_by: 3 columns",
                                                              "featuretype as str", "featuretype as list",
                                                              "featuretype as tuple", "featuretype as set",
-                                                             "featuretype none", "with strand", "with limit"]
+                                                             "featuretype none", "with strand", "with limit",
+                                                             "feature set: odd", "feature set: plain",
+                                                             "featuretype collection of 1000-1200 entries (with duplicates)",
+                                                             "featuretype collection of 1000-1200 entries (no duplicates)",
+                                                             "long featuretype collection: order_by",
+                                                             "long featuretype collection: order_by + reverse",
+                                                             "featuretype containing a comma (str)",
+                                                             "featuretype containing a comma (collection)",
+                                                             "history: deletes and rewrites"]
 ASSUMPTIONS = [
     "sortedness is judged under SQLite BINARY semantics: NULL first, integers numerically, text by UTF-8 bytes; "
     "length = end - start (NULL when a coordinate is '.'); file_order = position in the input",
@@ -38,6 +77,11 @@ ASSUMPTIONS = [
     "input order is asked of all_features() without any filter or order_by only",
     "empty featuretype collections are outside the statement and not generated",
     "queries with limit= are judged with C06's overlap/within predicate on coordinates far below 2**29",
+    "a featuretype given as a plain string names exactly one type, whatever characters it contains; an entry repeated in "
+    "a featuretype collection does not repeat features in the result",
+    "after deletes and in-place rewrites (add_relation with parent_func/child_func) the 'input order' and 'file_order' of "
+    "the surviving features is their original relative order in the input; a history whose rewrite did not reach the "
+    "stored row is skipped (C10's subject)",
 ]
 QUICK_SHARDS = 4
 THOROUGH_SHARDS = 16
@@ -65,14 +109,14 @@ def get_db(ctx, setp):
     import gffutils
     from gvmon.run import Inconclusive
 
-    key = (setp["seed"], setp["n"])
+    key = (setp["seed"], setp["n"], setp.get("flavor"))
     if key not in _DBS:
         for k in list(_DBS):
             try:
                 _DBS.pop(k)[0].conn.close()
             except Exception:
                 pass
-        SET = G.make_set(setp["seed"], setp["n"])
+        SET = G.make_set(setp["seed"], setp["n"], setp.get("flavor"))
         db = gffutils.create_db(SET["text"], ":memory:", from_string=True)
         raw = db.conn.execute("SELECT id, seqid, source, featuretype, start, end, score, strand, frame, attributes, "
                               "extra FROM features").fetchall()
@@ -93,12 +137,19 @@ def get_db(ctx, setp):
     return _DBS[key]
 
 
+def ft_values(q):
+    """The featuretype collection as handed over (a 'long' query pads q["ft"] to 1000-1200 entries)."""
+    if q.get("ft_pad"):
+        return G.long_types(q["ft"], q["ft_pad"])
+    return list(q["ft"])
+
+
 def ft_arg(q):
     if q["ft"] is None:
         return None
     if q["ft_form"] == "str":
         return q["ft"][0]
-    return {"list": list, "tuple": tuple, "set": set}[q["ft_form"]](q["ft"])
+    return {"list": list, "tuple": tuple, "set": set}[q["ft_form"]](ft_values(q))
 
 
 def call(db, q, order_by):
@@ -119,7 +170,7 @@ def execute_after_delete(ctx, case):
     feature of one type and every feature on one seqid through the same handle, and compare again."""
     import gffutils
 
-    SET = G.make_set(case["set"]["seed"], case["set"]["n"])
+    SET = G.make_set(case["set"]["seed"], case["set"]["n"], case["set"].get("flavor"))
     rows = SET["rows"]
     db = gffutils.create_db(SET["text"], ":memory:", from_string=True)
     try:
@@ -161,11 +212,35 @@ def execute(ctx, case):
         return execute_counts(ctx, case)
     if case["kind"] == "counts_after_delete":
         return execute_after_delete(ctx, case)
-    q = case["query"]
+    if case["kind"] == "history":
+        return execute_history(ctx, case)
     db, SET, by_id = get_db(ctx, case["set"])
-    rows = SET["rows"]
-    ft = set(q["ft"]) if q["ft"] is not None else None
+    return judge_query(ctx, case, db, SET["rows"], by_id, case["query"])
+
+
+def judge_query(ctx, case, db, rows, by_id, q, after_history=False):
+    """One query against `db` whose stored features are `rows` (in input order)."""
+    ft = set(ft_values(q)) if q["ft"] is not None else None
     want = [r["id"] for r in rows if M.matches(r, ft, q["strand"], q["limit"], q["within"])]
+    long_ft = bool(q.get("ft_pad"))
+    if long_ft:
+        ctx.mon("long featuretype collections (1000-1200 entries) queried")
+        ctx.mon("long featuretype collections: entries handed over", len(ft_values(q)))
+        if q["ft_pad"]["dups"]:
+            ctx.mon("long featuretype collections with duplicate entries")
+        if q["order_by"] is not None:
+            ctx.mon("long featuretype collections with order_by" + (" and reverse" if q["reverse"] else ""))
+    if q["ft"] is not None:
+        for t in q["ft"]:
+            for name in G.odd_classes(t):
+                ctx.mon("featuretype argument containing %s: %s" % (name, "as a plain string" if q["ft_form"] == "str"
+                                                                     else "inside a collection"))
+                if any(r["featuretype"] == t for r in rows):
+                    ctx.mon("featuretype argument containing %s: features stored under exactly that type" % name)
+    hist = ""
+    if after_history:
+        ctx.mon("queries on a database with a history")
+        hist = " [database with a history: deletes / in-place rewrites through add_relation]"
     cols = q["order_by"]
     if cols is None:
         variants = [("none", None)]
@@ -202,7 +277,7 @@ def execute(ctx, case):
         if d:
             filt = "+".join(x for x in ("featuretype:" + str(q["ft_form"]) if q["ft"] is not None else "",
                                         "strand" if q["strand"] else "", "limit" if q["limit"] else "") if x) or "no filter"
-            report(ctx, case, "multiset", dict(d, why="%s result differs from the full-scan filter (%s)" % (q["api"], filt),
+            report(ctx, case, "multiset", dict(d, why="%s result differs from the full-scan filter (%s)%s" % (q["api"], filt, hist),
                                                order_by=repr(ob), query=qd, set=case["set"]))
             continue
         if any(i not in by_id for i in got):
@@ -211,8 +286,9 @@ def execute(ctx, case):
             if q["ft"] is None and q["strand"] is None and q["limit"] is None:
                 ctx.mon("full iterations compared with input order")
                 if got != want:
-                    report(ctx, case, "input-order", {"why": "full iteration without order_by is not in input order",
-                                                      "got": got[:20], "query": qd, "set": case["set"]})
+                    report(ctx, case, "input-order", {"why": "full iteration without order_by is not in input order" + hist,
+                                                      "got": got[:20], "expected": want[:20], "query": qd,
+                                                      "set": case["set"]})
             continue
         keys = [M.sort_key(by_id[i], cols) for i in got]
         nkeys = max(nkeys, len(set(keys)))
@@ -222,11 +298,13 @@ def execute(ctx, case):
             continue
         desc = bool(q["reverse"])
         ctx.mon("sortedness checks (descending, single column)" if desc else "sortedness checks (ascending)")
+        if long_ft:
+            ctx.mon("sortedness checks on results of long featuretype collections")
         i = M.first_inversion(keys, descending=desc)
         if i is not None:
             a, b = by_id[got[i]], by_id[got[i + 1]]
             report(ctx, case, "unsorted", {
-                "why": "result is not sorted %s by the requested column(s)" % ("descending" if desc else "ascending"),
+                "why": "result is not sorted %s by the requested column(s)%s" % ("descending" if desc else "ascending", hist),
                 "order_by": repr(ob), "position": i,
                 "row i": [a["id"]] + [M.value(a, c) for c in cols], "row i+1": [b["id"]] + [M.value(b, c) for c in cols],
                 "query": qd, "set": case["set"]})
@@ -243,6 +321,117 @@ def execute(ctx, case):
     return {"expected": len(want), "nkeys": nkeys}
 
 
+def execute_history(ctx, case):
+    """A database that went through a history (deletes; in-place rewrites through add_relation(parent_func=,
+    child_func=) that add attributes; optional reopen) is then queried: input order and 'file_order' keep the original
+    relative order of the surviving features, the distinct lists and counts follow the features present, and the
+    case's queries are judged as on a fresh database."""
+    import os
+    import gffutils
+
+    setp = case["set"]
+    SET = G.make_set(setp["seed"], setp["n"], setp.get("flavor"))
+    rows = SET["rows"]
+    dbfn = ctx.tmp(".db") if case["db"] == "file" else ":memory:"
+    db = None
+    nexp = 0
+    try:
+        db = gffutils.create_db(SET["text"], dbfn, from_string=True)
+        if case.get("prime"):
+            list(db.featuretypes()), list(db.seqids()), db.count_features_of_type(), [f.id for f in db.all_features()]
+        gone, touched = set(), set()
+        for op in case["ops"]:
+            if op["op"] == "delete":
+                db.delete(op["id"] if op["form"] == "id" else db[op["id"]], make_backup=False)
+                gone.add(op["id"])
+                ctx.mon("history: features deleted")
+            else:
+                tag = op["tag"]
+
+                def pf(parent, child, tag=tag):
+                    parent.attributes["child_" + tag] = [child.id]
+                    return parent
+
+                def cf(parent, child, tag=tag):
+                    child.attributes["parent_" + tag] = [parent.id, "x y"]
+                    return child
+
+                p, c = (op["parent"], op["child"]) if op["as"] == "id" else (db[op["parent"]], db[op["child"]])
+                db.add_relation(p, c, op["level"], parent_func=pf if op["funcs"] in ("parent", "both") else None,
+                                child_func=cf if op["funcs"] in ("child", "both") else None)
+                ctx.mon("history: add_relation calls with parent_func/child_func")
+                if op["funcs"] in ("parent", "both"):
+                    touched.add((op["parent"], "child_" + tag))
+                if op["funcs"] in ("child", "both"):
+                    touched.add((op["child"], "parent_" + tag))
+        if case.get("reopen") and dbfn != ":memory:":
+            db.conn.close()
+            db = gffutils.FeatureDB(dbfn)
+            ctx.mon("history: database reopened before the queries")
+        left = [dict(r) for r in rows if r["id"] not in gone]
+        nexp = len(left)
+        # the rewrites must have reached the stored rows (otherwise this history exercised nothing; not C11's subject)
+        raw = {r[0]: tuple(r) for r in db.conn.execute("SELECT id, attributes, extra FROM features")}
+        for fid, key in sorted(touched):
+            if fid in gone:
+                continue
+            if fid in raw and ('"%s"' % key) in (raw[fid][1] or ""):
+                ctx.mon("history: rewritten attributes seen in the stored row")
+            else:
+                ctx.skip("history: a rewrite through add_relation did not reach the stored row")
+                return {"expected": nexp, "nkeys": 0}
+        for r in left:
+            if r["id"] in raw:
+                r["attributes"], r["extra"] = raw[r["id"]][1], raw[r["id"]][2]
+        by_id = {r["id"]: r for r in left}
+        ids = [r["id"] for r in left]
+        ctx.mon("histories applied before querying")
+        checks = []
+        ctx.mon("full iterations compared with input order")
+        ctx.mon("full iterations after a history compared with the original relative input order")
+        checks.append(("input-order", "all_features()", [f.id for f in db.all_features()], ids))
+        for ob in ("file_order", ("file_order",), ["file_order"]):
+            ctx.mon("order_by='file_order' after a history compared with the original relative input order")
+            checks.append(("file-order", "all_features(order_by=%r)" % (ob,), [f.id for f in db.all_features(order_by=ob)], ids))
+        checks.append(("file-order", "all_features(order_by='file_order', reverse=True)",
+                       [f.id for f in db.all_features(order_by="file_order", reverse=True)], ids[::-1]))
+        ctx.mon("featuretypes() comparisons")
+        ctx.mon("seqids() comparisons")
+        ctx.mon("distinct lists compared after a history")
+        checks.append(("featuretypes", "featuretypes()", sorted(db.featuretypes()), sorted(set(r["featuretype"] for r in left))))
+        checks.append(("seqids", "seqids()", sorted(db.seqids()), sorted(set(r["seqid"] for r in left))))
+        checks.append(("count-total", "count_features_of_type()", db.count_features_of_type(), len(left)))
+        for t in sorted(set(r["featuretype"] for r in rows)):
+            ctx.mon("count_features_of_type comparisons")
+            n_model = [r["id"] for r in left if r["featuretype"] == t]
+            checks.append(("count", "count_features_of_type(%r)" % t, db.count_features_of_type(t), len(n_model)))
+            checks.append(("multiset", "features_of_type(%r)" % t, [f.id for f in db.features_of_type(t)], n_model))
+        for reason, name, got, want in checks:
+            if got != want:
+                report(ctx, case, reason + " after history", {
+                    "why": "%s does not follow the surviving features in their original input order after a history "
+                           "(deletes / in-place rewrites through add_relation)" % name,
+                    "got": got[:20] if isinstance(got, list) else got, "expected": want[:20] if isinstance(want, list) else want,
+                    "ops": case["ops"][:12], "set": setp})
+                break
+        for q in case.get("queries", []):
+            judge_query(ctx, case, db, left, by_id, q, after_history=True)
+    except Exception as ex:
+        report(ctx, case, "raised", {"why": "a query on a database with a history raised an exception",
+                                     "raised": repr(ex)[:200], "ops": case["ops"][:12], "set": setp})
+    finally:
+        try:
+            if db is not None:
+                db.conn.close()
+        except Exception:
+            pass
+        if dbfn != ":memory:" and os.path.exists(dbfn):
+            os.unlink(dbfn)
+        for v in contracts.drain():
+            report(ctx, case, "contract", v)
+    return {"expected": nexp, "nkeys": 2}
+
+
 def execute_counts(ctx, case):
     db, SET, by_id = get_db(ctx, case["set"])
     rows = SET["rows"]
@@ -251,8 +440,13 @@ def execute_counts(ctx, case):
     if total != len(rows):
         report(ctx, case, "count-total", {"why": "count_features_of_type() differs from the number of stored features",
                                           "got": total, "expected": len(rows), "set": case["set"]})
-    for t in sorted(set(G.TYPES + ["absent", "%", "gene%", "g_ne"])):
+    cand = set(G.TYPES + ["absent", "%", "gene%", "g_ne"])
+    if SET.get("flavor") == "odd":
+        cand |= set(G.ODD_TYPES + G.PROBES)
+    for t in sorted(cand):
         ctx.mon("count_features_of_type comparisons")
+        for name in G.odd_classes(t):
+            ctx.mon("count_features_of_type vs iteration for a type containing " + name)
         n_model = sum(1 for r in rows if r["featuretype"] == t)
         try:
             n = db.count_features_of_type(t)
@@ -282,42 +476,70 @@ def execute_counts(ctx, case):
     return {"expected": len(rows), "nkeys": 2}
 
 
+def account_query(ctx, setp, q, r, cls=None):
+    cols = q["order_by"]
+    if cols is None:
+        ctx.classes["order_by: none"] += 1
+    elif len(cols) == 1:
+        ctx.classes["order_by=" + cols[0]] += 1
+    else:
+        ctx.classes["order_by: %d columns" % len(cols)] += 1
+        for c in cols:
+            ctx.classes["order_by (in a tuple)=" + c] += 1
+    ctx.classes["featuretype as %s" % q["ft_form"] if q["ft"] is not None else "featuretype none"] += 1
+    if q.get("ft_pad"):
+        ctx.classes["featuretype collection of 1000-1200 entries (%s)" % ("with duplicates" if q["ft_pad"]["dups"]
+                                                                          else "no duplicates")] += 1
+        ctx.classes["long featuretype collection: " + ("no order_by" if cols is None else
+                                                       "order_by + reverse" if q["reverse"] else "order_by")] += 1
+    if q["ft"] is not None:
+        for name in set(n for t in q["ft"] for n in G.odd_classes(t)):
+            ctx.classes["featuretype containing %s (%s)" % (name, "str" if q["ft_form"] == "str" else "collection")] += 1
+    if q["strand"]:
+        ctx.classes["with strand"] += 1
+    if q["limit"]:
+        ctx.classes["with limit"] += 1
+    if q["reverse"]:
+        ctx.classes["reverse"] += 1
+    return r["expected"] >= 3 and (cols is None or r["nkeys"] >= 2)
+
+
 def run(ctx):
     rng = ctx.rng
     quick = ctx.tier == "quick"
     nsets = 25 if quick else 100
-    nq = ctx.budget(4 * 25 * 500, 16 * 100 * 300) // nsets
+    nq = ctx.budget(4 * 25 * 400, 16 * 100 * 260) // nsets
+    nhist = 3 if quick else 5
     for si in range(nsets):
         setp = {"seed": rng.randrange(1 << 30), "n": rng.choice([12, 25, 40, 60, 90])}
+        if si % 3 == 2:
+            setp["flavor"] = "odd"
+        tag = (setp["seed"], setp["n"], setp.get("flavor"))
         _, SET, _ = get_db(ctx, setp)
+        ctx.classes["feature set: " + (setp.get("flavor") or "plain")] += 1
         case = {"kind": "counts", "set": setp}
         execute(ctx, case)
-        ctx.case(("counts", setp["seed"], setp["n"]), True, cls="counts / featuretypes / seqids", sample=None)
+        ctx.case(("counts",) + tag, True, cls="counts / featuretypes / seqids", sample=None)
         case = {"kind": "counts_after_delete", "set": setp, "pick": rng.randrange(1000)}
         execute(ctx, case)
-        ctx.case(("counts_after_delete", setp["seed"], setp["n"], case["pick"]), True, cls="counts after deletes", sample=None)
-        for _ in range(nq):
-            q = G.gen_query(rng, SET)
+        ctx.case(("counts_after_delete", case["pick"]) + tag, True, cls="counts after deletes", sample=None)
+        for hi in range(nhist):
+            ops = G.gen_history(rng, SET)
+            case = {"kind": "history", "set": setp, "ops": ops, "db": rng.choice(["memory", "memory", "file"]),
+                    "prime": rng.random() < 0.5, "queries": [G.gen_query(rng, SET) for _ in range(5)]}
+            case["reopen"] = case["db"] == "file" and rng.random() < 0.6
+            r = execute(ctx, case)
+            nd = sum(1 for o in ops if o["op"] == "delete")
+            ctx.classes["history: %s" % ("deletes and rewrites" if 0 < nd < len(ops) else
+                                         "deletes only" if nd else "rewrites only")] += 1
+            ctx.case(("history", hi, repr(ops)) + tag, len(ops) >= 2 and r["expected"] >= 3, cls="queries after a history",
+                     sample={"set": setp, "ops": ops[:6], "surviving features": r["expected"]})
+        for qi in range(nq):
+            q = G.gen_query(rng, SET, long_ft=(qi % 40 == 7))
             case = {"kind": "query", "set": setp, "query": q}
             r = execute(ctx, case)
-            cols = q["order_by"]
-            if cols is None:
-                ctx.classes["order_by: none"] += 1
-            elif len(cols) == 1:
-                ctx.classes["order_by=" + cols[0]] += 1
-            else:
-                ctx.classes["order_by: %d columns" % len(cols)] += 1
-                for c in cols:
-                    ctx.classes["order_by (in a tuple)=" + c] += 1
-            ctx.classes["featuretype as %s" % q["ft_form"] if q["ft"] is not None else "featuretype none"] += 1
-            if q["strand"]:
-                ctx.classes["with strand"] += 1
-            if q["limit"]:
-                ctx.classes["with limit"] += 1
-            if q["reverse"]:
-                ctx.classes["reverse"] += 1
-            nontrivial = r["expected"] >= 3 and (cols is None or r["nkeys"] >= 2)
-            ctx.case((setp["seed"], setp["n"], sorted((k, repr(v)) for k, v in q.items())), nontrivial,
+            nontrivial = account_query(ctx, setp, q, r)
+            ctx.case(tag + (sorted((k, repr(v)) for k, v in q.items()),), nontrivial,
                      cls="%s" % q["api"],
                      sample={"set": setp, "query": {k: v for k, v in q.items() if v is not None}, "expected rows": r["expected"],
                              "distinct sort keys": r["nkeys"]})
@@ -333,7 +555,11 @@ MANIFEST = {
             "brute-force filter of the model rows, and the returned sequence is checked for sortedness (NULL first, integers "
             "numerically, text by UTF-8 bytes; ties free; reverse for one column only). count_features_of_type, "
             "featuretypes(), seqids() and the order of a full iteration are compared with the input. An icontract "
-            "postcondition on the real helpers.make_query checks placeholders == args on every call. Held = no executed "
+            "postcondition on the real helpers.make_query checks placeholders == args on every call. Also: feature sets "
+            "whose featuretypes/seqids/sources contain commas, blanks, '%', '_' and wildcards (as a string and inside "
+            "collections), featuretype collections of 1000-1200 entries with and without repeats under order_by/reverse, "
+            "and databases queried after a history of deletes and in-place rewrites through add_relation (input order, "
+            "'file_order', distinct lists and counts must follow the surviving features). Held = no executed "
             "query disagreed.",
     "note": "Trusted: the model in gvmon/models/C11.py, sqlite3. The sort key of the attributes/extra columns is the raw stored "
             "text. Multi-column reverse is only checked as a multiset (the statement is silent).",
